@@ -421,7 +421,7 @@ def best_response_own(tree, strat, pl):
 
 
 # ---------------------------------------------------------------- running the binary
-def run_cli(args, text=None, path_text=None, ext=".json", out_file=False, timeout=120, name="cli"):
+def run_cli(args, text=None, path_text=None, ext=".json", out_file=False, timeout=120, name="cli", prefill=None):
     """args: list of extra options.  text -> stdin; path_text -> written to a file passed with -i.
     Returns dict(exit, stdout, stderr, outfile)."""
     exe = harness.build_cli()
@@ -442,6 +442,10 @@ def run_cli(args, text=None, path_text=None, ext=".json", out_file=False, timeou
         op = os.path.join(WORK, "%s_out.json" % name)
         if os.path.exists(op):
             os.remove(op)
+        if prefill is not None:
+            # the output path already exists (e.g. the result of an earlier, larger run)
+            with open(op, "w") as f:
+                f.write(prefill)
         files.append(op)
         cmd += ["-o", op]
     try:
